@@ -38,7 +38,7 @@ func (c09) Runs(tier string) int {
 }
 
 func c09Opts(tier string) core.HistOpts {
-	o := core.HistOpts{Shapes: allShapes, PageMin: 1, PageMax: 6, MinBatches: 0, MaxBatches: 4, MaxOps: 40, Profile: core.Benign, ManyPct: 1, ManyMax: 30, HugePct: 3}
+	o := core.HistOpts{Shapes: allShapes, PageMin: 1, PageMax: 6, MinBatches: 0, MaxBatches: 4, MaxOps: 40, Profile: core.Benign, ManyPct: 1, ManyMax: 30, HugePct: 3, GiantPct: 20}
 	if tier != "thorough" {
 		o.ManyPct = 0 // a 30-row-group workload has ~1000 sink calls to enumerate: thorough only
 	}
@@ -104,6 +104,9 @@ func (p c09) Run(runseed uint64, tier string, acc *Acc) []*core.Violation {
 	}
 	if w.Many {
 		acc.Inc("class/many-row-groups")
+	}
+	if w.Giant {
+		acc.Inc("class/giant-page")
 	}
 	if w.Huge {
 		acc.Inc("class/huge-values")
